@@ -29,6 +29,17 @@ CLAIMED.update({
    "SSA symbolic execution with symbolic scheduler + SMT, native replay"),
 })
 
+CLAIMED.update({
+ "C12": ("DESIGN.md 5/C12",
+   "Router registry: one arbitrary Add/Remove/Has/Get on an arbitrary registry (symbolic names, opaque clients) against a map model incl. change callbacks; Get with fallback/factory fakes answering arbitrarily; two concurrent first Gets under every interleaving; replaceEmptyNameField over the protobuf reflection model.",
+   "Trusted: symgo (+ concurrency runtime, protobuf model), z3. Outside the claim so far: the generated per-trait forwarders (C12-C) and the generator-freshness clause.",
+   "SSA symbolic execution + SMT, symbolic scheduler, native replay"),
+ "C20": ("DESIGN.md 5/C20",
+   "Kernels of the trait models executed symbolically: parent traitUnion/traitRemove on sorted symbolic name lists (set algebra), vending updateStock (units, floor at zero, nil-safety, error reporting), unitpb.Convert (identity / category errors), fan speed DeriveValues (table consistency under precedence, no panic for 0..3 presets), mode relativeAdjustment (modular step over full int32), NewModelModes configuration.",
+   "Trusted: symgo, z3, ordinal-string abstraction for names that are only compared. Outside: float rounding in real unit conversion (symbolic FP multiply+divide is undecided by all back ends), md5 of publications, enter/leave, meter, publication and constructor-plumbing clauses not yet encoded.",
+   "SSA symbolic execution + SMT (BV, FP), native replay"),
+})
+
 NOT_YET = {}
 
 NA = {
